@@ -98,7 +98,7 @@ pub fn replay(case: &Value) -> Result<String, String> {
 pub fn plan(tier: Tier) -> Plan {
     let mut p = Plan::new("C09", "model_checking");
     let thorough = tier.thorough();
-    p.rule = "every byte string produced by the builder over the C01 space (all subsets of U_ab3/U_abc2/U_raw2 x value patterns x cache geometries; all 17 front ends under the default geometry for small sets; fan-out families 0..256; type field in {0,1,255,u64::MAX}; size families 3000 / 70000 (thorough: 1200000) keys for 2-,3-,4-byte deltas) is decoded by an independent decoder written from the format description: header/footer fields, reference CRC, backwards tiling of the body without gap or overlap, every target 0 or an earlier tiled node, strictly increasing inputs, index table consistent, depth-first reading == model. Field-width minimality and the choice among legal node forms are not asserted. non-trivial = files with >= 2 keys".into();
+    p.rule = "every byte string produced by the builder over the C01 space (all subsets of U_ab3/U_abc2/U_raw2 x value patterns x cache geometries; all 17 front ends under the default geometry for small sets; fan-out families 0..256; a label family in which each of the 256 bytes labels single-transition nodes of both forms; type field in {0,1,255,u64::MAX}; size families 3000 / 70000 (thorough: 1200000) keys for 2-,3-,4-byte deltas) is decoded by an independent decoder written from the format description: header/footer fields, reference CRC, backwards tiling of the body without gap or overlap, every target 0 or an earlier tiled node, strictly increasing inputs, index table consistent, depth-first reading == model. Field-width minimality and the choice among legal node forms are not asserted. non-trivial = files with >= 2 keys".into();
     p.assumptions = vec!["the format description in DESIGN.md section C09 is the documented format; the decoder shares no code or table with the crate (its common-input table is a frozen literal)".into()];
     let small_geoms: Vec<Geom> = if thorough { GEOMS.iter().cloned().filter(|g| *g != DEFAULT_GEOM).collect() } else { vec![(1, 1), (2, 2), (0, 0)] };
     for u in [u_ab3(), u_abc2(), u_raw2()] {
@@ -149,6 +149,19 @@ pub fn plan(tier: Tier) -> Plan {
             }
         }));
     }
+    for part in 0..8usize {
+        p.units.push(unit("label-family-all-256-bytes", format!("labels part {}", part), move |st, rep| {
+            for (i, (_, kvs)) in label_family().into_iter().enumerate() {
+                if i % 8 != part {
+                    continue;
+                }
+                st.nontrivial += (kvs.len() >= 2) as u64;
+                st.count("label_cases", 1);
+                do_case(&kvs, Front::RawInsert, (2, 2), 0, st, rep);
+                do_case(&kvs, Front::MapInsert, DEFAULT_GEOM, 0, st, rep);
+            }
+        }));
+    }
     let sizes: Vec<u64> = if thorough { vec![3_000, 70_000, 1_200_000] } else { vec![3_000, 70_000] };
     for n in sizes {
         p.units.push(unit("size-families", format!("size family {}", n), move |st, rep| {
@@ -158,6 +171,6 @@ pub fn plan(tier: Tier) -> Plan {
             do_case(&kvs, Front::RawInsert, (3, 3), 0, st, rep);
         }));
     }
-    p.must_be_nonzero = vec!["fanout_cases".into(), "nodes_with_index".into(), "nodes_one_trans_next".into(), "nodes_one_trans".into()];
+    p.must_be_nonzero = vec!["label_cases".into(), "fanout_cases".into(), "nodes_with_index".into(), "nodes_one_trans_next".into(), "nodes_one_trans".into()];
     p
 }
